@@ -60,7 +60,15 @@ def gen_cases(tier, seed0):
     for (ns, nc) in ((2, 1), (3, 1), (2, 2), (2, 3), (3, 2)):
         labels = "ABC"[:ns]
         for mask in range(2 ** (ns * nc)):
+            # a flag is any non-zero integer (the documentation's own example sets value=5): the k-th flagged entry of
+            # every second map carries 1, 2 or 5
             chem = [(mask >> q) & 1 for q in range(ns * nc)]
+            if mask % 2 == 1 or mask % 4 == 2:
+                k = 0
+                for q in range(ns * nc):
+                    if chem[q]:
+                        chem[q] = [1, 2, 5][k % 3]
+                        k += 1
             for netname, reactions, D in _networks(ns):
                 for gtype in ("grid", "graph"):
                     spec = {"species": [{"label": labels[s], "D": D[s]} for s in range(ns)],
@@ -194,6 +202,21 @@ def check_case(case):
     return out
 
 
+def gen_owned(tier):
+    """(v) owned draws: for EVERY flag subset of a (2 species x 3 cells) periodic grid the Gillespie engine is driven, in
+    one state, with every u of a grid (probe build): each event's u-measure must be its CME probability computed with
+    chemostated entries acting as sources and sinks (exempt from the change only)."""
+    from checks import c07_stochastic as c07
+    ns, nc = 2, 3
+    for mask in range(2 ** (ns * nc)):
+        chem = [(mask >> q) & 1 for q in range(ns * nc)]
+        spec = {"species": [{"label": "A", "D": 2.0}, {"label": "B", "D": 3.0}],
+                "reactions": [{"eq": [[["A", 1]], [["B", 1]]], "kf": 3.0, "kr": 5.0}], "envs": [""],
+                "space": {"type": "grid", "w": 3, "h": 1, "d": 1, "vol": 2.0, "bc": {"x": "periodical"}}, "chemostats": chem}
+        yield {"owned": True, "sub": "owned", "name": "C03 flag subset %d on a periodic 3x1x1 grid" % mask, "spec": spec,
+               "state": [2, 1, 3, 1, 2, 0], "M": 48 if tier == "quick" else 192, "shape": [ns, nc], "seeds": []}
+
+
 _CASES = None
 
 
@@ -201,6 +224,15 @@ def _work(job):
     lo, hi = job
     acc = core.Acc()
     for case in _CASES[lo:hi]:
+        if case.get("owned"):
+            from checks import c07_stochastic as c07
+            res, st = c07.check_owned(case)
+            acc.add(states=1, transitions=st.get("transitions", 0), traces=st.get("transitions", 0), evaluations=1, nontrivial=1)
+            acc.count("owned_draw_states")
+            acc.count("probe_blind_cases", st.get("blind", 0))
+            for key, what in res:
+                acc.violation("C03" + key[3:], what, case)
+            continue
         res = check_case(case)
         nflag = sum(case["spec"]["chemostats"])
         nruns = 1 + 2 * len(case["seeds"])
@@ -219,7 +251,13 @@ def _work(job):
 def run(ctx):
     global _CASES
     _CASES = list(gen_cases(ctx.tier, ctx.seed))
+    nplain = len(_CASES)
+    _CASES += list(gen_owned(ctx.tier))
     eng.so_path("plain")
+    try:
+        eng.so_path("probe")
+    except Exception:
+        pass
     jobs = pool.chunks(len(_CASES), 12)
     res = pool.pmap(_work, jobs, timeout=600)
     done = 0
@@ -232,7 +270,11 @@ def run(ctx):
     ctx.subspace("all chemostat subsets of (species,cells) in {(2,1),(3,1),(2,2),(2,3),(3,2)} (4+8+16+64+64 maps) x 3 networks x "
                  "{grid,graph}; per system: kinetics (both modes), make_dxdtf (single cell), apply_reaction at every position "
                  "x n in {1,-1,2}, Euler (5 steps), tau-leap and Gillespie x seed window",
-                 len(_CASES), done, exhaustive=(done == len(_CASES)))
+                 nplain, min(done, nplain), exhaustive=(done == len(_CASES)))
+    ctx.subspace("owned draws (probe build): all 64 flag subsets of a 2-species periodic 3x1x1 grid; in one molecular state every u of "
+                 "the grid {(k+1/2)/M} is supplied for both draws of a Gillespie step: legality, event measure vs CME probability "
+                 "(chemostated entries keep their propensities), waiting-time quantiles", len(_CASES) - nplain,
+                 len(_CASES) - nplain if done == len(_CASES) else 0, exhaustive=(done == len(_CASES)))
     ctx.rule("one case per (shape, flag subset, network, space type); non-trivial = at least one entry flagged; all "
              "2^(species*cells) subsets are enumerated so a wrong-species / wrong-cell flag lookup cannot hide")
     ctx.assume("reference rate law and CME channel model (mc/ref); seed window [1000*VERIF_SEED, +2 quick / +8 thorough)")
@@ -240,4 +282,7 @@ def run(ctx):
 
 
 def replay(case):
+    if case.get("owned"):
+        from checks import c07_stochastic as c07
+        return [("C03" + k[3:], w) for k, w in c07.check_owned(case)[0]]
     return check_case(case)
